@@ -126,6 +126,8 @@ def _update_view(prefix, links, leaf="job"):
         directory tree (Default value = 'job').
 
     """
+    # Compare normalized paths, the link of a single job is found as './job'.
+    links = {os.path.normpath(path): target for path, target in links.items()}
     obsolete, to_update, new = _analyze_view(prefix, links)
     num_ops = len(obsolete) + 2 * len(to_update) + len(new)
     if num_ops:
@@ -173,7 +175,9 @@ def _analyze_view(prefix, links, leaf="job"):
 
     """
     logger.info(f"Analyzing view prefix '{prefix}'...")
-    existing_paths = {os.path.join(p, leaf) for p in _find_all_links(prefix, leaf)}
+    existing_paths = {
+        os.path.normpath(os.path.join(p, leaf)) for p in _find_all_links(prefix, leaf)
+    }
     existing_tree = _build_tree(existing_paths)
     for path in links:
         _color_path(existing_tree, path.split(os.sep))
